@@ -154,11 +154,26 @@ func regSx(tag string, reg map[int][]plumbing.Hash) Sx {
 	return T(tag, items...)
 }
 
-// bigLimit: a case with more operations than this is recorded compactly ("big" mode): per Consume
-// only the tick, per Fork only the index of the first clone; previousTick of every branch, tick0
-// and the registries are recorded at the end of every analysis (at every init and at the end of
-// the case) instead of after every step.
-const bigLimit = 1500
+// A case with more than bigOps operations or more than bigClones clones is recorded compactly
+// ("big" mode): per Consume only the tick, per Fork only the index of the first clone;
+// previousTick of every branch, tick0 and the registries are recorded at the end of every
+// analysis (at every init and at the end of the case) instead of after every step (the
+// per-step record is quadratic: previousTick of every branch and the whole commits[tick]).
+const bigOps = 300
+const bigClones = 40
+
+func isBig(ops []op) bool {
+	if len(ops) > bigOps {
+		return true
+	}
+	clones := 0
+	for _, o := range ops {
+		if o.kind == "fork" && o.n > 0 {
+			clones += o.n
+		}
+	}
+	return clones > bigClones
+}
 
 func sameMap(a, b map[int][]plumbing.Hash) bool {
 	return reflect.ValueOf(a).Pointer() == reflect.ValueOf(b).Pointer()
@@ -170,7 +185,7 @@ func sameMap(a, b map[int][]plumbing.Hash) bool {
 // the item PUBLISHED, i.e. the value of facts[FactCommitsByTick] captured right after Configure,
 // as a downstream item (leaves/comment_sentiment.go) captures it.
 func runCase(c cfg, ops []op) (obs []Sx) {
-	big := len(ops) > bigLimit
+	big := isBig(ops)
 	root := &api.TicksSinceStart{}
 	facts := map[string]interface{}{}
 	var pubs []map[int][]plumbing.Hash // every registry captured at Configure time, oldest first
@@ -434,7 +449,7 @@ func emit(c *Config, kind string, cf cfg, ops []op) {
 			consumes++
 		}
 	}
-	if len(ops) > bigLimit {
+	if isBig(ops) {
 		c.Emit(T("kind", A(kind)), T("nt", B(consumes >= 2)), cf.sx(), T("big", I(1)), T("ops", sops...), T("obs", obs...))
 		return
 	}
@@ -911,6 +926,12 @@ func main() {
 				kind = "replay-sat"
 			}
 			emit(c, kind, cf, ops)
+		}
+		return
+	}
+	if os.Getenv("C19_ONLY") == "scale" { // development aid: the large cases alone
+		for _, s := range scaleSpecs(c) {
+			scaleCase(c, s)
 		}
 		return
 	}
